@@ -142,7 +142,7 @@ def run(ctx):
         "binary64 rounding of the rotation is not proved; sampled against the independent formula to 1e-9 relative to |v|",
         "shape preservation and the accepted shape/broadcast combinations are numpy semantics: validated by sampling "
         "(the generated model is traced on shapes (3,), (3,1), (3,2), (3,1,2) and proved column-wise identical)",
-        "the 1 m distance to the geodetic normal and termination of geodetic_lat (np.allclose exit) are validated by sampling, not proved",
+        "geodetic_lat: the step map is regenerated from the source (gen_geodetic_step) and proved a contraction (factor 0.0069) for points off the polar axis and >= 6355.8 km from the centre, so np.allclose succeeds by the fourth comparison; from the exit test alone the point is within 1 m of the normal through its subpoint (C14_point_on_normal_within_1m). That the loop IS the iteration of that step map with that test, the polar axis (r = 0) and the vectorised all-elements exit are tied by the correspondence run",
         "translator (symtrace/emit/gen_geoloc) trusted for 'emitted term = what the code computes over R'; self-checked each run "
         "by binary64 evaluation of the DAG and Coq-Interval evaluation of the printed terms against the interpreter",
         "subpoint is traced with geodetic_lat replaced by a free latitude symbol; the theorem holds for every latitude value",
